@@ -42,9 +42,10 @@ type poolSpec struct {
 	ExtBlockMs     uint64 `json:"ext_block_ms"`
 	FxBlockMs      uint64 `json:"fx_block_ms"`
 	ExtCalls       bool   `json:"ext_calls"`
-	Flood          bool   `json:"flood"`     // start with more pooled transfers of one token than a batch takes
-	LongPark       bool   `json:"long_park"` // start with a deposit that is observed but executed only after more than a hundred later events
-	OldChain       bool   `json:"old_chain"` // fxcore's own height is far above every external height and timeout of the history
+	Flood          bool   `json:"flood"`      // start with more pooled transfers of one token than a batch takes
+	LongPark       bool   `json:"long_park"`  // start with a deposit that is observed but executed only after more than a hundred later events
+	IBCTarget      bool   `json:"ibc_target"` // not a history: deposits whose target is another chain over IBC, with less voucher liquidity than the deposit
+	OldChain       bool   `json:"old_chain"`  // fxcore's own height is far above every external height and timeout of the history
 }
 
 func poolCases(seed uint64, tier, prop string) []core.Case {
@@ -66,6 +67,15 @@ func poolCases(seed uint64, tier, prop string) []core.Case {
 			s.FxBlockMs = s.ExtBlockMs * uint64(20+rng.IntN(40))
 		}
 		out = append(out, core.MkCase(fmt.Sprintf("%s-pool-%03d", prop, i), s))
+	}
+	if prop == "C04" {
+		k := 2
+		if tier == "thorough" {
+			k = 12
+		}
+		for i := 0; i < k; i++ {
+			out = append(out, core.MkCase(fmt.Sprintf("%s-ibc-target-%02d", prop, i), poolSpec{Seed: rng.Uint64(), IBCTarget: true}))
+		}
 	}
 	return out
 }
@@ -158,6 +168,14 @@ func runPool(cs core.Case, verbose bool, c04, c05, c06 bool) core.CaseResult {
 	res := core.CaseResult{}
 	if err := json.Unmarshal(cs.Spec, &spec); err != nil {
 		res.Inconclusive = err.Error()
+		return res
+	}
+	if spec.IBCTarget {
+		if c04 {
+			c04IBCTargetCase(spec.Seed, &res, verbose)
+		}
+		res.Sig = "ibc-target"
+		res.Sample = map[string]interface{}{"spec": spec}
 		return res
 	}
 	r := &poolRun{spec: spec, rng: core.Rng(spec.Seed, 5), res: &res, verb: verbose, c04: c04, c05: c05, c06: c06,
@@ -588,6 +606,12 @@ func (r *poolRun) syncModel(cn, op string, allow map[string]bool) {
 			}
 			cr.Loc = "refunded"
 		}
+	}
+}
+
+func (r *poolRun) v06(key, format string, a ...interface{}) {
+	if r.c06 {
+		r.res.Violate(key, format, a...)
 	}
 }
 
